@@ -164,8 +164,11 @@ func GetHtpasswdMatcher(filename, username, siteRoot string) (PasswordMatcher, e
 	// The parsed file is kept across rules, sites and reloads, but only for
 	// as long as the file is the one that was parsed: an edited htpasswd file
 	// (a password changed, a user removed) takes effect on the next load.
+	// A file that has disappeared (or can no longer be examined) is no
+	// longer the one that was parsed either: loading then fails on the open
+	// below, as it does in a process that never saw the file.
 	if stamp, ok := htpasswordStamps[filename]; ok {
-		if fi, err := os.Stat(filename); err == nil && (!fi.ModTime().Equal(stamp.modTime) || fi.Size() != stamp.size) {
+		if fi, err := os.Stat(filename); err != nil || !fi.ModTime().Equal(stamp.modTime) || fi.Size() != stamp.size {
 			delete(htpasswords, filename)
 			delete(htpasswordStamps, filename)
 		}
